@@ -314,6 +314,11 @@ func MatchingFile(r *world.PRNG, cs []Change, style, header string) []byte {
 		o.Imports = append(o.Imports, "fmt")
 		o.Stmts = append(o.Stmts, "fmt.Println(\"x\")")
 	}
+	if r.Chance(1, 4) {
+		// standard-library and third-party imports mixed in one block: import
+		// processing regroups and sorts them
+		o.Imports = append(o.Imports, "os", "example.com/zeta", "strings", "example.com/alpha")
+	}
 	return GenValidGoFile(r, o)
 }
 
